@@ -20,3 +20,12 @@ func C20_RangeModel() {
 	chk("C20", vf.Implies(vf.And(x.GTE(two127().MulRaw(2)), y.GTE(two127())), pm), "product-beyond-255-bits-panics")
 	chk("C20", vf.Implies(vf.And(x.GTE(two127().Mul(two127())), y.GTE(x)), pa), "sum-beyond-255-bits-panics")
 }
+
+func C20_ParseDecimalPrice() {
+	focus = "C20"
+	k, ctx := vf.Env()
+	vf.CheckOverflow()
+	text := vf.PricingTextDec("m.pricing", 0, 0)
+	panicked := vf.Try(func() { _, _ = k.ParsePricing(ctx, text) })
+	chk("C20", !panicked, "parsing-a-schema-valid-decimal-price-no-panic")
+}
